@@ -32,8 +32,9 @@ ASSUMPTIONS = [
     "atomic (C12_atomic_save_unordered_metadata_refuted) - assumption, not a finding",
     "an injected OSError has no effect on the file system (a failing close still releases the descriptor, buffered "
     "data dropped)",
-    "persistence_file is not a symbolic link and stays in one directory (fname = realpath(persistence_file), the "
-    "backup name is derived from the unresolved path)",
+    "MODEL: persistence_file is not a symbolic link and stays in one directory (fname = realpath(persistence_file), the "
+    "backup name is derived from the unresolved path); a symbolic link to another directory / name is covered by "
+    "monitors only (harness/impl/linkfile.py: every directory operation of the save failing or being the crash point)",
     "decoder failure classes on partial/empty files are the measured ones (Gen/DamageClasses.v)",
     "single process: no second writer of the three files",
 ]
@@ -280,6 +281,8 @@ def strip(case):
 def run(ctx, res):
     root = str(F.scratch_root())
     try:
+        from harness.impl import linkfile
+        linkfile.run_all(res, ID)        # the file is a symbolic link: monitors only (outside the one-directory model)
         _run(ctx, res, root)
     finally:
         F.cleanup_scratch()
@@ -374,6 +377,9 @@ def strip_small(c):
 
 def replay(ctx, case):
     case = case.get("case", case)
+    if case.get("kind") == "linked-file":
+        from harness.impl import linkfile
+        return linkfile.replay(case)
     root = str(F.scratch_root())
     try:
         if "sset" not in case:
